@@ -74,7 +74,7 @@ def jobs(tier):
                 it = ('DInE' if tr == 'eager' else 'DInL') if depth else INPUT_TYPES[(tr, 'lf_crlf')]
                 stub = rule_stub({0: dict(A=str(a), M=str(m), next_ok='T_NONE', next_fail='T_NONE')})
                 con = Contract(comb_requires())
-                asg = 'IT_FIELDS(in), g_turn, g_pos, g_done, g_iter, g_last, g_called, g_ok, g_len, g_ncalls, g_ae, g_re, g_lp, vf_exc, vf_exc_counter, g_exc_obj, g_exc_type'
+                asg = 'IT_FIELDS(in), g_turn, g_pos, g_done, g_iter, g_last, g_called, g_ok, g_len, g_ncalls, g_ae, g_re, g_lp, g_cur, vf_exc, vf_exc_counter, g_exc_obj, g_exc_type'
                 own = ('(vf_exc.pending && vf_exc.type == %s && vf_exc.obj != g_exc_obj)' % g_exc.PE)
                 if op == 'limitbytes':
                     con.add(R('g_lim == ((g_n - OFF(CUR(in)) < MAXB) ? g_n : OFF(CUR(in)) + MAXB)', 'lim-ghost'))
